@@ -215,3 +215,27 @@ pub fn bounded_section(
         }
     }
 }
+
+/// One (scoped) thread per cell, for scenarios that mostly wait: `vcommon::par_cases` hands out
+/// blocks of 16 cases per worker, which serialises a handful of slow cells.
+pub fn par_each<C: Sync>(r: &mut vcommon::Report, cells: &[C], f: impl Fn(&C, &mut vcommon::Report) + Sync) {
+    for chunk in cells.chunks(48) {
+        let children: Vec<vcommon::Report> = std::thread::scope(|s| {
+            let hs: Vec<_> = chunk
+                .iter()
+                .map(|c| {
+                    let mut child = r.child();
+                    let f = &f;
+                    s.spawn(move || {
+                        f(c, &mut child);
+                        child
+                    })
+                })
+                .collect();
+            hs.into_iter().filter_map(|h| h.join().ok()).collect()
+        });
+        for c in children {
+            r.merge(c);
+        }
+    }
+}
